@@ -92,7 +92,13 @@ func (h *verifC15) checkInvariants(when string) {
 	_ = when
 }
 
-func verifC15Run(P, S int) {
+func verifC15Run(P, S int) { verifC15Drive(P, S, false) }
+
+// verifC15Deep: all P proposals are delivered first, in an arbitrary order,
+// then S further free events follow (long enough chains for the commit rule).
+func verifC15Deep(P, S int) { verifC15Drive(P, S, true) }
+
+func verifC15Drive(P, S int, deliverAllFirst bool) {
 	h := &verifC15{P: P}
 	initQC := &QuorumCert{VoteInfo: &VoteInfo{ProposalId: []byte{0}, ProposalView: 0}, LedgerCommitInfo: &LedgerCommitInfo{CommitStateId: []byte{0}}}
 	root := &ProposalNode{In: initQC}
@@ -127,9 +133,31 @@ func verifC15Run(P, S int) {
 		h.sent = append(h.sent, false)
 	}
 
-	for step := 0; step < S; step++ {
-		kind := vrt.Choice("event", 4)
-		i := vrt.Choice("target", P)
+	total := S
+	var order []int
+	if deliverAllFirst {
+		total = P + S
+		rest := make([]int, P)
+		for i := range rest {
+			rest[i] = i
+		}
+		for len(rest) > 0 {
+			j := vrt.Choice("order", len(rest))
+			order = append(order, rest[j])
+			rest = append(rest[:j], rest[j+1:]...)
+		}
+	}
+	for step := 0; step < total; step++ {
+		var kind, i int
+		if deliverAllFirst && step < P {
+			kind, i = 0, order[step]
+		} else if deliverAllFirst {
+			kind = 1 + vrt.Choice("event", 3)
+			i = vrt.Choice("target", P)
+		} else {
+			kind = vrt.Choice("event", 4)
+			i = vrt.Choice("target", P)
+		}
 		highBefore := h.t.HighQC.In.GetProposalView()
 		rootBefore := h.t.Root
 		switch kind {
@@ -160,4 +188,6 @@ func verifC15Run(P, S int) {
 }
 
 func VerifC15Quick()    { verifC15Run(3, 3) }
-func VerifC15Thorough() { verifC15Run(4, 5) }
+func VerifC15Thorough() { verifC15Run(4, 4) }
+func VerifC15DeepQuick() { verifC15Deep(4, 1) }
+func VerifC15Deep()      { verifC15Deep(5, 2) }
